@@ -184,3 +184,110 @@ func TestVerifC06Udp(t *testing.T) {
 		return res
 	})
 }
+
+// ---------------------------------------------------------------- session key / fingerprint parsing
+
+type c06keyCase struct {
+	D        string `json:"d"`
+	Prefixes bool   `json:"prefixes"` // also every truncation of the datagram
+}
+
+type c06keyResult struct {
+	Ns    []int   `json:"ns"`
+	Codes []int64 `json:"codes"`
+}
+
+func c06keyZero(b []byte) bool {
+	for _, x := range b {
+		if x != 0 {
+			return false
+		}
+	}
+	return true
+}
+
+// one packed observation of NewPacketSnifferKey / parseQuicInitialFingerprint / ObserveQuicInitial on `data`
+// (a slice whose capacity is its length, so that any read past the datagram panics):
+//   k + 4*f + 16*klen + 512*fdl + 16384*fsl + (obsPanic << 20)
+// k, f: 0 nothing, 1 present and every field equals the bytes of the datagram at its position (unused
+// array bytes zero, version = big-endian data[1:5]), 2 present but some field differs, 3 panic
+func c06keyCode(data []byte) int64 {
+	src := netip.MustParseAddrPort("10.1.2.3:40000")
+	dst := netip.MustParseAddrPort("93.184.216.34:443")
+	var k, f, klen, fdl, fsl, obs int64
+	func() {
+		defer func() {
+			if r := recover(); r != nil {
+				k = 3
+			}
+		}()
+		key := NewPacketSnifferKey(src, dst, data)
+		if key.DCIDLen == 0 {
+			if !c06keyZero(key.DCID[:]) {
+				k = 2
+			}
+			return
+		}
+		klen = int64(key.DCIDLen)
+		n := int(key.DCIDLen)
+		if n <= 20 && len(data) >= 6+n && string(key.DCID[:n]) == string(data[6:6+n]) && c06keyZero(key.DCID[n:]) && key.LAddr == src && key.RAddr == dst {
+			k = 1
+		} else {
+			k = 2
+		}
+	}()
+	func() {
+		defer func() {
+			if r := recover(); r != nil {
+				f = 3
+			}
+		}()
+		sig, ok := parseQuicInitialFingerprint(data)
+		if !ok {
+			if sig != (quicInitialFingerprint{}) {
+				f = 2
+			}
+			return
+		}
+		fdl, fsl = int64(sig.dstLen), int64(sig.srcLen)
+		d, s := int(sig.dstLen), int(sig.srcLen)
+		if d <= 20 && s <= 20 && len(data) >= 7+d+s &&
+			sig.version == uint32(data[1])<<24|uint32(data[2])<<16|uint32(data[3])<<8|uint32(data[4]) &&
+			string(sig.dstConn[:d]) == string(data[6:6+d]) && c06keyZero(sig.dstConn[d:]) &&
+			string(sig.srcConn[:s]) == string(data[7+d:7+d+s]) && c06keyZero(sig.srcConn[s:]) {
+			f = 1
+		} else {
+			f = 2
+		}
+	}()
+	func() {
+		defer func() {
+			if r := recover(); r != nil {
+				obs = 1
+			}
+		}()
+		ps := &PacketSniffer{}
+		_, _ = ps.ObserveQuicInitial(data)
+	}()
+	return k + 4*f + 16*klen + 512*fdl + 16384*fsl + obs<<20
+}
+
+func TestVerifC06Key(t *testing.T) {
+	verifEachLine(t, func(line []byte) any {
+		var cs c06keyCase
+		if err := json.Unmarshal(line, &cs); err != nil {
+			return c06keyResult{}
+		}
+		full, _ := hex.DecodeString(cs.D)
+		var res c06keyResult
+		lo := len(full)
+		if cs.Prefixes {
+			lo = 0
+		}
+		for n := lo; n <= len(full); n++ {
+			res.Ns = append(res.Ns, n)
+			res.Codes = append(res.Codes, c06keyCode(full[:n:n]))
+		}
+		return res
+	})
+}
